@@ -83,6 +83,31 @@ def run_builtins(acc):
         if (r1, r2, r3) != ('global-wins', 'local-wins', 'local-wins'):
             acc.violation('builtin-wins-over-binding', f'{alias}: global->{r1!r} local+global->{r2!r} local->{r3!r}', case)
             continue
+        # a NON-function value bound to the name wins as well: the call fails (null + debug report), the built-in never runs;
+        # a name bound to null is an undefined function
+        from bare_script.runtime import BareScriptRuntimeError
+        for where in ('global', 'local'):
+            for bound in (5.0, 'text', {'k': 1}):
+                logs = []
+                g = {'aa': 1.0}
+                loc = None
+                if where == 'global':
+                    g[alias] = bound
+                else:
+                    loc = {alias: bound}
+                try:
+                    r = evaluate_expression(expr, {'globals': g, 'logFn': logs.append, 'debug': True}, loc, True)
+                except BareScriptRuntimeError as exc:
+                    r = ('rterr', str(exc))
+                acc.count('builtin_shadow_checks')
+                if r is not None or not any(f'"{alias}"' in l for l in logs):
+                    acc.violation('builtin-wins-over-non-function-binding', f'{alias} bound to {bound!r} in {where}s: result {r!r}, log {logs[:1]!r:.200}', case)
+                    break
+            try:
+                r = evaluate_expression(expr, {'globals': {'aa': 1.0, alias: None}} if where == 'global' else {'globals': {'aa': 1.0}}, None if where == 'global' else {alias: None}, True)
+                acc.violation('builtin-wins-over-null-binding', f'{alias} bound to null in {where}s: result {r!r} instead of an undefined-function error', case)
+            except BareScriptRuntimeError:
+                acc.count('builtin_shadow_checks')
         # through a script: a host global and a script-defined function shadow the built-in inside data expressions
         text = (f"dd = arrayNew(objectNew('aa', 5))\ndataCalculatedField(dd, 'r1', '{alias}(aa)')\n"
                 f"r2 = dataFilter(dd, '{alias}(aa) == \\'host-stub\\'')\nreturn arrayNew(objectGet(arrayGet(dd, 0), 'r1'), arrayLength(r2))")
@@ -170,6 +195,26 @@ def run_history(spec, acc):
                     acc.violation('library-modified', f'{name} changed after a run in mode {mode}: {diff[:8]}', case)
                     return
             acc.count('library_identity_checks')
+        # a library script preloaded into base globals; request scripts run on COPIES of them: its functions read and write the
+        # globals of the run that CALLS them (never those of the run that defined them)
+        base_g = {}
+        bare_script.execute_script(bare_script.parse_script(
+            "rate = 0.5\nfunction getRate():\n    return rate\nendfunction\nfunction setRate(r):\n    systemGlobalSet('rate', r)\n    return rate\nendfunction\n"
+            "function bump():\n    counter = if(counter == null, 0, counter) + 1\n    systemGlobalSet('counter', counter)\n    return counter\nendfunction"), {'globals': base_g})
+        for k in range(3):
+            req_g = dict(base_g)
+            want_rate = 0.25 * (k + 1)
+            res = bare_script.execute_script(bare_script.parse_script(
+                f"before = getRate()\nrate = {want_rate}\nseen = getRate()\nset = setRate(rate * 2)\n"
+                "dd = dataCalculatedField(arrayNew(objectNew('a', 1)), 'r', 'getRate() + vv', objectNew('vv', 100))\n"
+                "return arrayNew(before, seen, set, rate, bump(), bump(), objectGet(arrayGet(dd, 0), 'r'))"), {'globals': req_g})
+            acc.case(('preloaded-library', h, k), True)
+            acc.count('preloaded_library_requests')
+            want = [0.5, want_rate, want_rate * 2, want_rate * 2, 1, 2, want_rate * 2 + 100]
+            if res != want or base_g.get('rate') != 0.5 or 'counter' in base_g or req_g.get('counter') != 2:
+                acc.violation('function-uses-globals-of-defining-run', f'request {k}: got {res!r}, expected {want!r}; base globals rate={base_g.get("rate")!r} counter={base_g.get("counter")!r}; '
+                              f'request globals counter={req_g.get("counter")!r}', {'history': 'preloaded-library', 'request': k})
+                return
         # expression evaluation without options / globals reads unknown names as null and sees the built-ins only
         for e, want in (({'variable': 'counter'}, None), ({'variable': 'leftover'}, None), ({'function': {'name': 'abs', 'args': [{'number': -2.0}]}}, 2)):
             for opts in (None, {}, {'globals': {}}):
@@ -258,6 +303,7 @@ def run_shard(spec, acc):
         return
     lib = _lib()
     con = _contracts()
+    acc.count('prior_runs_without_globals', exec_prog.prior_runs())
     base = spec['seed'] * 1000003 + spec['shard'] * 7919 + 41
     for i in range(spec['n']):
         rnd = random.Random(base + i)
